@@ -6,3 +6,7 @@ if ! /venv/bin/python -c "import hypothesis" 2>/dev/null; then
 fi
 mkdir -p .cache/numba .scratch evidence
 /venv/bin/python -c "import hypothesis, cogent3; print('setup ok: hypothesis', hypothesis.__version__, 'cogent3', cogent3.__version__)"
+# atheris (coverage-guided campaigns of the thorough tier) goes beside the checks, not into /venv
+if ! PYTHONPATH=.deps /venv/bin/python -c "import atheris" 2>/dev/null; then
+  PIP_NO_INDEX=1 /venv/bin/pip install -q --no-index --find-links /opt/veriftools/wheels atheris --target .deps || echo "setup: atheris not installed (thorough tier runs without coverage-guided campaigns)"
+fi
